@@ -58,7 +58,7 @@ pub fn ls_ignore(a: &Args) {
             // edit changes the set of identifiers of the file
             let code = n % 3 == 2;
             let (uri, lang) = if code { ("untitled:Untitled-2.rs", "rust") } else { ("untitled:Untitled-1", "plaintext") };
-            let prose = format!("{} {}", rng.pick(&corpus[..]), ["teh cat saw teh dog.", "an test of an test.", "He said \"an test\" today."][rng.below(3)]);
+            let prose = format!("{} {}", rng.pick(&corpus[..]), ["teh cat saw teh dog.", "an test of an test.", "He said \"an test\" today.", "We went to the the the shop.", "It was in in in in the box.", "Very very very odd."][rng.below(6)]);
             let mut text = if code { format!("// {prose}\nfn helper_one(arg_zq: u8) -> u8 {{ arg_zq }}\n") } else { prose };
             out.emit(&json!({"ev": "Reset", "text": text}));
             let h = ls.did_open(uri, lang, &text);
@@ -84,7 +84,7 @@ pub fn ls_ignore(a: &Args) {
                     continue;
                 }
                 // ignore one visible diagnostic through its code action
-                let d = &va[rng.below(va.len())];
+                let d = if rng.chance(1, 2) { va.iter().max_by_key(|d| d["range"]["start"]["character"].as_u64().unwrap_or(0)).unwrap() } else { &va[rng.below(va.len())] };
                 let res = ls.call("textDocument/codeAction", json!({"textDocument": {"uri": uri}, "range": d["range"], "context": {"diagnostics": []}}), true);
                 let dict = FstDictionary::curated();
                 let doc = if code {
